@@ -41,15 +41,16 @@ Proof.
     + apply IH; [assumption|]. intro H. apply Hnin. right. exact H.
 Qed.
 
-(* Fuel: one level per name that is not yet on the reference stack, plus one. *)
-Lemma expand_fuel g : forall fuel stack refs,
+(* Fuel: one level per name that is not yet on the reference stack, plus one.  For either
+   treatment of null declarations ([on_null] is a terminal outcome). *)
+Lemma expand_fuel on_null g : on_null <> VOutOfFuel -> forall fuel stack refs,
   NoDup stack -> (forall x, In x stack -> x < length g) ->
   length g - length stack + 1 <= fuel ->
-  expand fuel g stack refs <> VOutOfFuel.
+  expand on_null fuel g stack refs <> VOutOfFuel.
 Proof.
-  induction fuel as [|k IH]; intros stack refs Hnd Hb Hf; [lia|].
+  intros Hon. induction fuel as [|k IH]; intros stack refs Hnd Hb Hf; [lia|].
   cbn [expand].
-  induction refs as [|t r IHr]; [discriminate|].
+  induction refs as [|[t|] r IHr]; [discriminate| |exact Hon].
   destruct (nth_error g t) as [body|] eqn:Et; [|discriminate].
   rewrite has_dup_snoc by exact Hnd.
   destruct (existsb (Nat.eqb t) stack) eqn:Ein; [discriminate|].
@@ -64,79 +65,98 @@ Proof.
   rewrite app_length in Hlen. simpl in Hlen.
   specialize (IH (stack ++ [t]) body Hnd' Hb').
   rewrite app_length in IH. simpl in IH.
-  destruct (expand k g (stack ++ [t]) body) eqn:Ex; try discriminate.
+  destruct (expand on_null k g (stack ++ [t]) body) eqn:Ex; try discriminate.
   - exact IHr.
   - exfalso. apply IH; [lia|reflexivity].
 Qed.
 
-Theorem validate_terminates_lemma g : validate_templates g <> VOutOfFuel.
+(* the repaired validation never dereferences a nil declaration *)
+Lemma expand_no_panic : forall fuel g stack refs, expand VErrNull fuel g stack refs <> VPanic.
 Proof.
+  induction fuel as [|k IH]; intros g stack refs; [discriminate|].
+  cbn [expand]. induction refs as [|[t|] r IHr]; try discriminate.
+  destruct (nth_error g t) as [body|]; [|discriminate].
+  destruct (has_dup (stack ++ [t])); [discriminate|].
+  specialize (IH g (stack ++ [t]) body).
+  destruct (expand VErrNull k g (stack ++ [t]) body); try discriminate; [exact IHr|congruence].
+Qed.
+
+Theorem validate_terminates_lemma g : validate_templates g <> VOutOfFuel /\ validate_templates g <> VPanic.
+Proof.
+  split; [|apply expand_no_panic].
   unfold validate_templates. destruct g as [|b g].
-  - (* no declaration at all: FINAL_OUTPUT itself is missing; fuel 1 suffices for no references *)
-    simpl. discriminate.
+  - simpl. discriminate.
   - apply expand_fuel.
+    + discriminate.
     + constructor; [intros []|constructor].
     + intros x [<-|[]]. simpl. lia.
     + simpl. lia.
 Qed.
 
-(* ---- cycles are rejected ---- *)
-Definition edge (g : tgraph) (a b : nat) : Prop := exists body, nth_error g a = Some body /\ In b body.
+(* ---- cycles and null declarations are rejected ---- *)
+Definition edge (g : tgraph) (a b : nat) : Prop := exists body, nth_error g a = Some body /\ In (Some b) body.
 Inductive path (g : tgraph) : nat -> nat -> Prop :=
 | path_refl a : path g a a
 | path_step a b c : edge g a b -> path g b c -> path g a c.
 
-Lemma path_trans g a b c : path g a b -> path g b c -> path g a c.
-Proof. induction 1; [auto|]. intro H2. econstructor; eauto. Qed.
-
 (* If the expansion of [refs] under [stack] succeeds, nothing reachable from [refs] is on the
-   stack, and nothing reachable from [refs] lies on a cycle. *)
-Lemma expand_ok_acyclic g : forall fuel stack refs,
+   stack, nothing reachable lies on a cycle, [refs] holds no null and no reachable declaration does. *)
+Lemma expand_ok_acyclic on_null g : on_null <> VOk -> forall fuel stack refs,
   NoDup stack ->
-  expand fuel g stack refs = VOk ->
-  forall r, In r refs -> forall u, path g r u ->
-    ~ In u stack /\ (forall v, edge g u v -> ~ path g v u).
+  expand on_null fuel g stack refs = VOk ->
+  ~ In None refs /\
+  forall r, In (Some r) refs -> forall u, path g r u ->
+    ~ In u stack /\ (forall v, edge g u v -> ~ path g v u)
+    /\ (forall body, nth_error g u = Some body -> ~ In None body).
 Proof.
-  induction fuel as [|k IH]; intros stack refs Hnd; [discriminate|].
+  intro Hon. induction fuel as [|k IH]; intros stack refs Hnd; [discriminate|].
   cbn [expand].
-  induction refs as [|t rest IHr]; intros Hok r Hr u Hp; [destruct Hr|].
-  destruct (nth_error g t) as [body|] eqn:Et; [|discriminate].
-  rewrite has_dup_snoc in Hok by exact Hnd.
-  destruct (existsb (Nat.eqb t) stack) eqn:Ein; [discriminate|].
-  assert (Hnin : ~ In t stack).
-  { intro Hin. apply existsb_eqb_in in Hin. congruence. }
-  destruct (expand k g (stack ++ [t]) body) eqn:Ex; try discriminate.
-  destruct Hr as [E|Hr]; [subst r|exact (IHr Hok r Hr u Hp)].
-  assert (Hnd' : NoDup (stack ++ [t])) by (apply nodup_snoc; assumption).
-  specialize (IH (stack ++ [t]) body Hnd' Ex).
-  (* everything strictly below t avoids stack ++ [t] and is cycle free *)
-  assert (Hbelow : forall t' w, In t' body -> path g t' w ->
-            ~ In w (stack ++ [t]) /\ (forall v, edge g w v -> ~ path g v w)).
-  { intros t' w Ht' Hw. exact (IH t' Ht' w Hw). }
-  inversion Hp as [a|a b c Hab Hbc]; subst.
-  - (* u = t *)
-    split; [exact Hnin|].
-    intros v [body' [Eb Hv]] Hback. rewrite Et in Eb. inversion Eb; subst body'.
-    destruct (Hbelow v u Hv Hback) as [Hn _]. apply Hn. apply in_or_app. right. left. reflexivity.
-  - destruct Hab as [body' [Eb Hb]]. rewrite Et in Eb. inversion Eb; subst body'.
-    destruct (Hbelow b u Hb Hbc) as [Hn Hc]. split; [|exact Hc].
-    intro Hin. apply Hn. apply in_or_app. left. exact Hin.
+  induction refs as [|[t|] rest IHr]; intro Hok.
+  - split; [intros []|intros r []].
+  - destruct (nth_error g t) as [body|] eqn:Et; [|discriminate].
+    rewrite has_dup_snoc in Hok by exact Hnd.
+    destruct (existsb (Nat.eqb t) stack) eqn:Ein; [discriminate|].
+    assert (Hnin : ~ In t stack).
+    { intro Hin. apply existsb_eqb_in in Hin. congruence. }
+    destruct (expand on_null k g (stack ++ [t]) body) eqn:Ex; try discriminate.
+    destruct (IHr Hok) as [Hnone Hrest].
+    split; [intros [E|H]; [discriminate|exact (Hnone H)]|].
+    intros r Hr u Hp.
+    destruct Hr as [E|Hr]; [inversion E; subst r|exact (Hrest r Hr u Hp)].
+    assert (Hnd' : NoDup (stack ++ [t])) by (apply nodup_snoc; assumption).
+    destruct (IH (stack ++ [t]) body Hnd' Ex) as [Hbnone Hbelow].
+    inversion Hp as [a|a b c Hab Hbc]; subst.
+    + (* u = t *)
+      split; [exact Hnin|]. split.
+      * intros v [body' [Eb Hv]] Hback. rewrite Et in Eb. inversion Eb; subst body'.
+        destruct (Hbelow v Hv u Hback) as [Hn _]. apply Hn. apply in_or_app. right. left. reflexivity.
+      * intros body' Eb. rewrite Et in Eb. inversion Eb; subst body'. exact Hbnone.
+    + destruct Hab as [body' [Eb Hb]]. rewrite Et in Eb. inversion Eb; subst body'.
+      destruct (Hbelow b Hb u Hbc) as (Hn&Hc&Hnull). split; [|split; assumption].
+      intro Hin. apply Hn. apply in_or_app. left. exact Hin.
+  - exfalso. exact (Hon Hok).
 Qed.
 
 Theorem validate_cycle_rejected_lemma g :
   validate_templates g = VOk ->
-  forall u, path g 0 u -> forall v, edge g u v -> ~ path g v u.
+  forall u, path g 0 u ->
+    (forall v, edge g u v -> ~ path g v u) /\ (forall body, nth_error g u = Some body -> ~ In None body).
 Proof.
-  unfold validate_templates. intros Hok u Hp v Huv Hback.
+  unfold validate_templates. intros Hok u Hp.
   assert (Hnd : NoDup [0]) by (constructor; [intros []|constructor]).
+  assert (Hon : VErrNull <> VOk) by discriminate.
+  destruct (expand_ok_acyclic VErrNull g Hon _ _ _ Hnd Hok) as [Hnone Hall].
   inversion Hp as [a|a b c Hab Hbc]; subst.
-  - (* u = FINAL_OUTPUT: v is one of its references and reaches 0, which is on the stack *)
-    destruct Huv as [body [Eb Hv]].
-    assert (nth 0 g [] = body) as Hb by (destruct g; simpl in *; congruence).
-    rewrite Hb in Hok.
-    destruct (expand_ok_acyclic g _ _ _ Hnd Hok v Hv 0 Hback) as [Hn _]. apply Hn. left. reflexivity.
+  - (* u = FINAL_OUTPUT *)
+    split.
+    + intros v [body [Eb Hv]] Hback.
+      assert (nth 0 g [] = body) as Hb by (destruct g; simpl in *; congruence).
+      rewrite Hb in Hall.
+      destruct (Hall v Hv 0 Hback) as [Hn _]. apply Hn. left. reflexivity.
+    + intros body Eb. assert (nth 0 g [] = body) as Hb by (destruct g; simpl in *; congruence).
+      rewrite <- Hb. exact Hnone.
   - destruct Hab as [body [Eb Hb0]].
     assert (nth 0 g [] = body) as Hb by (destruct g; simpl in *; congruence).
-    rewrite Hb in Hok.
-    destruct (expand_ok_acyclic g _ _ _ Hnd Hok b Hb0 u Hbc) as [_ Hc]. exact (Hc v Huv Hback).
+    rewrite Hb in Hall.
+    destruct (Hall b Hb0 u Hbc) as (_&Hc&Hnull). split; assumption.
 Qed.
